@@ -12,6 +12,18 @@ CHECKS = {
  "C03": ("generated reader vs interpreted reader on the same symbolic buffer (differential), decided by z3",
          "both readers of the same definition executed symbolically on one symbolic buffer inside one path condition; value, size, position and outcome equality discharged by z3; start offset symbolic as well",
          "5"),
+ "C04": ("the real layout computation executed on members with SYMBOLIC sizes; C alignment rules as z3 obligations; per-definition agreement of len/sizeof/offsets/read/write sizes",
+         "the real _calculate_size_and_offsets of structures and unions is executed on members whose sizes are solver variables (alignments enumerated), the C layout rules are asserted declaratively and discharged by z3; plus, per enumerated fixed-size definition, agreement with an independent reference layout (cross-checked against ctypes) and with the bytes consumed/produced on every path of a symbolic parse",
+         "5"),
+ "C05": ("every scalar codec vs a reference two's-complement/LEB128/UTF-16 term for all input bytes and all integers, decided by z3",
+         "each built-in scalar type and alias is executed on symbolic bytes / a symbolic integer and compared by z3 with reference encode/decode terms, LEB128 incl. well-formedness and minimality; endianness switch histories on loaded (compiled) structures",
+         "5"),
+ "C06": ("bit-field reader/writer vs an independent bit-slicing reference over all unit contents and all fitting values, decided by z3",
+         "enumerated bit-field width/storage sequences (incl. straddling ones) x endian x alignment x reader; unit contents and written values symbolic; extraction, range, unit allocation, rejection and write-inverse obligations discharged by z3",
+         "5"),
+ "C10": ("Expression.evaluate vs an independent precedence-climbing reference with symbolic identifier values, decided by z3",
+         "every well-formed token sequence up to a bounded length goes through the real tokenizer and shunting-yard evaluator with symbolic identifier values; equality with the reference evaluator's term, repeated evaluation with other contexts and fresh-object equality are discharged by z3; callers (#define, enum values, array lengths) driven with the same expressions",
+         "5"),
 }
 
 LEVEL_NOTE = ("trusted: CPython 3.12 semantics of the natively executed parts; the call-site rewrite (validated: repository suite passes under it); "
